@@ -7,6 +7,7 @@
  scalar parameters p, q (Integer, bounds 0..5, allow_refs) and a container
  parameter r (List, allow_refs, nested_refs).  A reference is
    [k |-> "param", s |-> i]   the Parameter  S_i.param.v
+   [k |-> "paramw", s |-> i]  the Parameter  S_i.param.w  (a second parameter of the same source)
    [k |-> "bind1", s |-> i]   param.bind(lambda v: v + 1, S_i.param.v)
    [k |-> "bind2"]            param.bind(lambda a, b: a + b, S_1.param.v, S_2.param.v)
    [k |-> "rx", s |-> i]      S_i.param.v.rx() + 1
@@ -35,56 +36,61 @@ Scalars == {"p", "q"}
 PNames == {"p", "q", "r"}
 NoRef == [k |-> "none"]
 RefsFor(n) == IF n = "r" THEN {[k |-> "nested", s |-> i] : i \in Sources} \cap {x \in {[k |-> "nested", s |-> i] : i \in Sources} : "nested" \in Kinds}
-              ELSE {[k |-> kk, s |-> i] : kk \in Kinds \cap {"param", "bind1", "rx"}, i \in Sources}
+              ELSE {[k |-> kk, s |-> i] : kk \in Kinds \cap {"param", "paramw", "bind1", "rx"}, i \in Sources}
                    \cup (IF "bind2" \in Kinds THEN {[k |-> "bind2"]} ELSE {})
 
-VARIABLES src, link, val, ctx, nops, hist
-vars == <<src, link, val, ctx, nops, hist>>
+VARIABLES src, srcw, link, val, ctx, nops, hist
+vars == <<src, srcw, link, val, ctx, nops, hist>>
 
 Deps(ref) == CASE ref.k = "none" -> {} [] ref.k = "bind2" -> Sources [] OTHER -> {ref.s}
 Resolve(ref, s) ==
   CASE ref.k = "param" -> s[ref.s]
+    [] ref.k = "paramw" -> s[ref.s + 10]
     [] ref.k \in {"bind1", "rx"} -> s[ref.s] + 1
     [] ref.k = "bind2" -> s[1] + s[2]
     [] ref.k = "nested" -> s[ref.s] + 100          \* encodes the list [v, 7]
 Valid(n, v) == IF n = "r" THEN TRUE ELSE v \in 0..5
+Env(sv, sw) == [i \in {1, 2, 11, 12} |-> IF i < 10 THEN sv[i] ELSE sw[i - 10]]
 Watched(lk) == {i \in Sources : \E n \in PNames : i \in Deps(lk[n])}
 
 Obs(v, lk) == [val |-> v, watched |-> Watched(lk), linked |-> {n \in PNames : lk[n] # NoRef}]
 Rec(name, args, res, v, lk, tags) ==
   hist' = IF RecordHist THEN Append(hist, [act |-> [name |-> name] @@ args, res |-> res, obs |-> Obs(v, lk), kf |-> tags]) ELSE hist
 
-Init == /\ src \in [Sources -> {0, 2}]
+Init == /\ src \in [Sources -> {0, 2}] /\ srcw = [i \in Sources |-> 1]
         /\ link \in [PNames -> UNION {RefsFor(n) : n \in PNames} \cup {NoRef}]
-        /\ \A n \in PNames : link[n] = NoRef \/ (link[n] \in RefsFor(n) /\ Valid(n, Resolve(link[n], src)))
+        /\ \A n \in PNames : link[n] = NoRef \/ (link[n] \in RefsFor(n) /\ Valid(n, Resolve(link[n], Env(src, srcw))))
         /\ link["q"] = NoRef \/ link["p"] # NoRef      \* (symmetry: q is linked only if p is)
-        /\ val = [n \in PNames |-> IF link[n] = NoRef THEN (IF n = "r" THEN 107 ELSE 1) ELSE Resolve(link[n], src)]
+        /\ val = [n \in PNames |-> IF link[n] = NoRef THEN (IF n = "r" THEN 107 ELSE 1) ELSE Resolve(link[n], Env(src, srcw))]
         /\ ctx = <<>> /\ nops = 0
-        /\ hist = IF RecordHist THEN <<[act |-> [name |-> "init", src |-> src, link |-> link], res |-> "ok", obs |-> Obs(val, link), kf |-> {}]>> ELSE <<>>
+        /\ hist = IF RecordHist THEN <<[act |-> [name |-> "init", src |-> src, srcw |-> srcw, link |-> link], res |-> "ok", obs |-> Obs(val, link), kf |-> {}]>> ELSE <<>>
 
 Step == nops < MaxOps /\ nops' = nops + 1
 
 \* a source is assigned: every live link that depends on it follows, if the new value is valid
-SetSource(i, v) ==
-  /\ "source" \in Acts /\ Step /\ v # src[i]
+\* one or both parameters of a source are assigned (both: in one batch, s.param.update(v=.., w=..))
+SetSource(i, v, w) ==
+  /\ "source" \in Acts /\ Step /\ (v # src[i] \/ w # srcw[i])
   /\ LET s2 == [src EXCEPT ![i] = v]
-         aff == {n \in PNames : i \in Deps(link[n])}
-         bad == {n \in aff : ~Valid(n, Resolve(link[n], s2))}
-     IN /\ (bad # {} => Cardinality(aff) = 1)        \* (several links, one invalid: order-dependent, outside the domain)
-        /\ src' = s2
-        /\ val' = [n \in PNames |-> IF n \in aff \ bad THEN Resolve(link[n], s2) ELSE val[n]]
+         w2 == [srcw EXCEPT ![i] = w]
+         touched == {n \in PNames : i \in Deps(link[n])}
+         aff == {n \in touched : Resolve(link[n], Env(s2, w2)) # Resolve(link[n], Env(src, srcw))}
+         bad == {n \in aff : ~Valid(n, Resolve(link[n], Env(s2, w2)))}
+     IN /\ (bad # {} => Cardinality(touched) = 1)        \* (several links, one invalid: order-dependent, outside the domain)
+        /\ src' = s2 /\ srcw' = w2
+        /\ val' = [n \in PNames |-> IF n \in aff \ bad THEN Resolve(link[n], Env(s2, w2)) ELSE val[n]]
         /\ UNCHANGED <<link, ctx>>
-        /\ Rec("source", [i |-> i, v |-> v], IF bad = {} THEN "ok" ELSE "invalid", val', link, {})
+        /\ Rec("source", [i |-> i, v |-> v, w |-> w, both |-> (v # src[i] /\ w # srcw[i])], IF bad = {} THEN "ok" ELSE "invalid", val', link, {})
 
 \* the target parameter n is assigned a reference
 SetRef(n, ref) ==
   /\ "ref" \in Acts /\ Step /\ ref \in RefsFor(n)
-  /\ IF Valid(n, Resolve(ref, src))
-     THEN /\ link' = [link EXCEPT ![n] = ref] /\ val' = [val EXCEPT ![n] = Resolve(ref, src)]
+  /\ IF Valid(n, Resolve(ref, Env(src, srcw)))
+     THEN /\ link' = [link EXCEPT ![n] = ref] /\ val' = [val EXCEPT ![n] = Resolve(ref, Env(src, srcw))]
           /\ Rec("ref", [n |-> n, ref |-> ref], "ok", val', link', {})
      ELSE /\ UNCHANGED <<link, val>>
           /\ Rec("ref", [n |-> n, ref |-> ref], "rejected", val, link, {"KF_RejectedRefRelinks"})
-  /\ UNCHANGED <<src, ctx>>
+  /\ UNCHANGED <<src, srcw, ctx>>
 
 \* the target parameter n is assigned a plain value (9 is invalid for p and q)
 SetPlain(n, v) ==
@@ -94,25 +100,25 @@ SetPlain(n, v) ==
           /\ Rec("plain", [n |-> n, v |-> v], "ok", val', link', IF link[n] # NoRef THEN {"KF_OverrideLeavesWatcher"} ELSE {})
      ELSE /\ UNCHANGED <<link, val>>
           /\ Rec("plain", [n |-> n, v |-> v], "rejected", val, link, IF link[n] # NoRef THEN {"KF_RejectedPlainUnlinks"} ELSE {})
-  /\ UNCHANGED <<src, ctx>>
+  /\ UNCHANGED <<src, srcw, ctx>>
 
 \* `with target.param.update(n=v):` ... on exit the previous value and link are back
 EnterUpd(n, v, form) ==
   /\ "updctx" \in Acts /\ Step /\ ctx = <<>> /\ n \in Scalars /\ Valid(n, v)
   /\ ctx' = <<[n |-> n, lk |-> link[n], v |-> val[n]]>>
   /\ link' = [link EXCEPT ![n] = NoRef] /\ val' = [val EXCEPT ![n] = v]
-  /\ UNCHANGED src
+  /\ UNCHANGED <<src, srcw>>
   /\ Rec("enterupd", [n |-> n, v |-> v, form |-> form], "ok", val', link', IF link[n] # NoRef THEN {"KF_OverrideLeavesWatcher"} ELSE {})
 ExitUpd ==
   /\ "updctx" \in Acts /\ ctx # <<>>
   /\ LET c == ctx[1]
-         v2 == IF c.lk = NoRef THEN c.v ELSE Resolve(c.lk, src) IN
+         v2 == IF c.lk = NoRef THEN c.v ELSE Resolve(c.lk, Env(src, srcw)) IN
      /\ (c.lk # NoRef => Valid(c.n, v2))
      /\ link' = [link EXCEPT ![c.n] = c.lk] /\ val' = [val EXCEPT ![c.n] = v2]
-     /\ ctx' = <<>> /\ UNCHANGED <<src, nops>>
+     /\ ctx' = <<>> /\ UNCHANGED <<src, srcw, nops>>
      /\ Rec("exitupd", <<>>, "ok", val', link', {})
 
-Next == \/ \E i \in Sources, v \in {0, 2, 4, 5} : SetSource(i, v)
+Next == \/ \E i \in Sources, v \in {0, 2, 4, 5}, w \in {1, 3} : SetSource(i, v, w)
         \/ \E n \in PNames : \E ref \in RefsFor(n) : SetRef(n, ref)
         \/ \E n \in PNames : \E v \in (IF n = "r" THEN {107} ELSE {3, 9}) : SetPlain(n, v)
         \/ \E n \in Scalars, form \in {"kw", "dict"} : EnterUpd(n, 3, form)
@@ -121,10 +127,10 @@ Spec == Init /\ [][Next]_vars
 
 \* ---- properties ------------------------------------------------------------------------------
 \* a live link whose resolved value is valid is mirrored
-Mirror == \A n \in PNames : (link[n] # NoRef /\ Valid(n, Resolve(link[n], src))) => val[n] = Resolve(link[n], src)
+Mirror == \A n \in PNames : (link[n] # NoRef /\ Valid(n, Resolve(link[n], Env(src, srcw)))) => val[n] = Resolve(link[n], Env(src, srcw))
 \* an overridden parameter is not affected by its old sources any more
 OverrideEnds ==
-  [][\A n \in PNames : (link[n] = NoRef /\ link'[n] = NoRef /\ src' # src) => val'[n] = val[n]]_vars
+  [][\A n \in PNames : (link[n] = NoRef /\ link'[n] = NoRef /\ (src' # src \/ srcw' # srcw)) => val'[n] = val[n]]_vars
 TypeOK == nops \in 0..MaxOps
 Emit == (RecordHist /\ nops = MaxOps /\ ctx = <<>>) => PrintT(<<"BEHAVIOUR", ToJson([steps |-> hist])>>)
 =============================================================================
